@@ -15,6 +15,7 @@ package core
 
 import (
 	"fmt"
+	"go/constant"
 	"go/token"
 	"go/types"
 	"sort"
@@ -257,6 +258,48 @@ func learnEdge(rg *Region, pf *pathFacts, e Edge) (*pathFacts, bool) {
 		}
 		return pf
 	}
+	// learnRel: a comparison with nil that holds on this path
+	learnRel := func(r *Rel) bool {
+		if r == nil || (r.Op != token.EQL && r.Op != token.NEQ) {
+			return true
+		}
+		// a comparison of a value whose constant the path knows (an enum chosen in a branch taken earlier) with a constant
+		if c := cur(); c != nil && len(c.consts) > 0 {
+			for _, pr := range [][2]ssa.Value{{r.X, r.Y}, {r.Y, r.X}} {
+				kv := ConstVal(pr[1])
+				if kv == nil || kv.Kind() != constant.Int {
+					continue
+				}
+				if known, ok := c.consts[pr[0]]; ok {
+					if (known == kv.ExactString()) != (r.Op == token.EQL) {
+						return false
+					}
+				}
+			}
+		}
+		var v ssa.Value
+		if IsNilConst(r.Y) {
+			v = Strip(r.X)
+		} else if IsNilConst(r.X) {
+			v = Strip(r.Y)
+		}
+		if v == nil {
+			return true
+		}
+		n := IsNil
+		if r.Op == token.NEQ {
+			n = NonNil
+		}
+		if c := cur(); c != nil {
+			if old, ok := c.nils[v]; ok && old != n {
+				return false
+			}
+		}
+		if rel.nilUses[v] >= 2 {
+			get().nils[v] = n
+		}
+		return true
+	}
 	for _, a := range atoms {
 		if a.Bool != nil {
 			if c := cur(); c != nil {
@@ -276,6 +319,9 @@ func learnEdge(rg *Region, pf *pathFacts, e Edge) (*pathFacts, bool) {
 					get().bools[al.v] = val
 					// and what that boolean is made of
 					for _, sub := range decompose(al.v, val, 0, map[ssa.Value]bool{}) {
+						if !learnRel(sub.Rel) {
+							return nil, false
+						}
 						if sub.Bool != nil && sub.Bool != al.v {
 							if old, known := cur().bools[sub.Bool]; known && old != sub.Val {
 								return nil, false
@@ -288,28 +334,8 @@ func learnEdge(rg *Region, pf *pathFacts, e Edge) (*pathFacts, bool) {
 				}
 			}
 		}
-		if a.Rel != nil && (a.Rel.Op == token.EQL || a.Rel.Op == token.NEQ) {
-			var v ssa.Value
-			if IsNilConst(a.Rel.Y) {
-				v = Strip(a.Rel.X)
-			} else if IsNilConst(a.Rel.X) {
-				v = Strip(a.Rel.Y)
-			}
-			if v == nil {
-				continue
-			}
-			n := IsNil
-			if a.Rel.Op == token.NEQ {
-				n = NonNil
-			}
-			if c := cur(); c != nil {
-				if old, ok := c.nils[v]; ok && old != n {
-					return nil, false
-				}
-			}
-			if rel.nilUses[v] >= 2 {
-				get().nils[v] = n
-			}
+		if a.Rel != nil && !learnRel(a.Rel) {
+			return nil, false
 		}
 	}
 	return cur(), true
